@@ -599,11 +599,24 @@ pub fn run_cli_env(case: &CliCase, entropy: u128, sandbox: &Path, expected: Opti
         }
     };
     if let Some(w) = fifo_writer.take() {
-        // if the program never opened the pipe, the writer is still blocked in open(2): give it a reader, then join
+        // The program is gone. The writer may still be blocked in open(2) (the program never opened the pipe) or in
+        // write(2) (the program stopped reading; or it never read and the pipe is full). Keep giving it a reader that
+        // takes what is there and hangs up - open(2) then returns, write(2) then fails with EPIPE - until it is done.
+        use std::io::Read;
         use std::os::unix::fs::OpenOptionsExt;
-        let unblock = std::fs::OpenOptions::new().read(true).custom_flags(0o4000).open(&inp);
-        let _ = w.join();
-        drop(unblock);
+        let t1 = Instant::now();
+        while !w.is_finished() && t1.elapsed() < Duration::from_secs(30) {
+            if let Ok(mut f) = std::fs::OpenOptions::new().read(true).custom_flags(0o4000).open(&inp) {
+                let mut sink = [0u8; 65536];
+                let _ = f.read(&mut sink);
+            }
+            std::thread::sleep(Duration::from_micros(200));
+        }
+        if w.is_finished() {
+            let _ = w.join();
+        } else {
+            return Err("the named-pipe writer of the harness did not finish".into());
+        }
     }
     let report = std::fs::read_to_string(&rp).unwrap_or_default();
     let out = CliOut {
